@@ -14,6 +14,8 @@ RuleOf(j) ==
                        SeqToSet(j.notAfter))
     ELSE IF j.style = "consuming"
          THEN [style |-> "consuming", lit |-> [ i \in 1..Len(j.lit) |-> SeqToSet(j.lit[i]) ]]
+    ELSE IF j.style = "mixed"
+         THEN [style |-> "mixed", lit |-> <<SeqToSet(j.lit[1])>>, after |-> SeqToSet(j.after)]
     ELSE [style |-> j.style]
 
 RulesOf(js) == [ i \in 1..Len(js) |-> RuleOf(js[i]) ]
